@@ -26,6 +26,12 @@ func RawGet(t *Table, k Value) Value {
 
 const maxIndexChainLength = 100
 
+// maxCallChainLength is the maximum number of '__call' metamethods followed to
+// find something callable.
+const maxCallChainLength = 100
+
+var errCallChainTooLong = errors.New("'__call' chain too long; possible loop")
+
 // Index returns the item in a collection for the given key k, using the
 // '__index' metamethod if appropriate.
 // Index always consumes CPU.
@@ -123,14 +129,27 @@ func Continue(t *Thread, f Value, next Cont) (Cont, error) {
 	if ok {
 		return callable.Continuation(t, next), nil
 	}
-	cont, err, ok := metacont(t, f, "__call", next)
-	if !ok {
-		return nil, fmt.Errorf("attempt to call a %s value", f.CustomTypeName())
+	// f is not callable: follow the chain of '__call' metamethods until a
+	// callable is found.  Each value in the chain becomes an extra first
+	// argument of the call.
+	var chain []Value
+	for len(chain) < maxCallChainLength {
+		t.RequireCPU(1)
+		meta := t.metaGetS(f, "__call")
+		if meta.IsNil() {
+			return nil, fmt.Errorf("attempt to call a %s value", f.CustomTypeName())
+		}
+		chain = append(chain, f)
+		f = meta
+		if callable, ok = f.TryCallable(); ok {
+			cont := callable.Continuation(t, next)
+			for i := len(chain) - 1; i >= 0; i-- {
+				t.Push1(cont, chain[i])
+			}
+			return cont, nil
+		}
 	}
-	if cont != nil {
-		t.Push1(cont, f)
-	}
-	return cont, err
+	return nil, errCallChainTooLong
 }
 
 // Call calls f with arguments args, pushing the results on next.  It may use
@@ -143,11 +162,22 @@ func Call(t *Thread, f Value, args []Value, next Cont) error {
 	if ok {
 		return t.call(callable, args, next)
 	}
-	err, ok := Metacall(t, f, "__call", append([]Value{f}, args...), next)
-	if ok {
-		return err
+	// f is not callable: follow the chain of '__call' metamethods until a
+	// callable is found.  Each value in the chain becomes an extra first
+	// argument of the call.
+	for i := 0; i < maxCallChainLength; i++ {
+		t.RequireCPU(1)
+		meta := t.metaGetS(f, "__call")
+		if meta.IsNil() {
+			return fmt.Errorf("attempt to call a %s value", f.CustomTypeName())
+		}
+		args = append([]Value{f}, args...)
+		f = meta
+		if callable, ok = f.TryCallable(); ok {
+			return t.call(callable, args, next)
+		}
 	}
-	return fmt.Errorf("attempt to call a %s value", f.CustomTypeName())
+	return errCallChainTooLong
 }
 
 // Call1 is a convenience method that calls f with arguments args and returns
@@ -465,18 +495,6 @@ func stripFirstLineComment(chunk []byte) ([]byte, bool) {
 		}
 	}
 	return nil, true
-}
-
-func metacont(t *Thread, obj Value, method string, next Cont) (Cont, error, bool) {
-	f := t.metaGetS(obj, method)
-	if f.IsNil() {
-		return nil, nil, false
-	}
-	cont, err := Continue(t, f, next)
-	if err != nil {
-		return nil, err, true
-	}
-	return cont, nil, true
 }
 
 func metabin(t *Thread, f string, x Value, y Value) (Value, error, bool) {
